@@ -252,7 +252,7 @@ open GoSup.CompSeq (CbRes Out)
 /-- the steps the library and well-behaved children can take once a `Stop()` is waiting (with some answer of the
 environment where one is needed: a callback that returns, a child `Stop()` that returns) -/
 def progressActs (s : St) : List Act :=
-  [.runEnter, .runBoot (.ok []), .runToRunning, .runSelStop, .runToStopping, .runStopBegin, .runStopEnd, .runFinish, .rlStopEnd]
+  [.runEnter, .runBoot (.ok []), .runBootFail, .runToRunning, .runSelStop, .runToStopping, .runStopBegin, .runStopEnd, .runFinish, .rlStopEnd]
   ++ (match s.run with | .stopping (c :: _) => [.childStopRet c] | .failStopping (c :: _) _ => [.childStopRet c] | _ => [])
   ++ (match s.rl with | .stopping _ (c :: _) => [.childStopRet c] | _ => [])
 
@@ -341,6 +341,7 @@ theorem c09_stop_never_stuck_nonblocking {s : St} (h : Reach lts (init []) s) (h
       refine ⟨.runBoot (.ok []), by simp [progressActs], ?_⟩
       simp only [step, hr, hm]
       cases s.cfg <;> simp
+    | bootFailed => exact ⟨.runBootFail, by simp [progressActs], by simp [step, hr]⟩
     | booted =>
       refine ⟨.runToRunning, by simp [progressActs], ?_⟩
       simp only [step, hr]
@@ -350,7 +351,7 @@ theorem c09_stop_never_stuck_nonblocking {s : St} (h : Reach lts (init []) s) (h
     | toStop =>
       have hm := hmuNone (by simp [hr]) (by simp [hr]) hrl'
       have hcfg : s.cfg ≠ none := fun hc => by
-        rcases h4.cfg hc with h1 | h1 | ⟨r, h1⟩ <;> rw [hr] at h1 <;> cases h1
+        rcases h4.cfg hc with h1 | h1 | h1 | ⟨r, h1⟩ <;> rw [hr] at h1 <;> cases h1
       refine ⟨.runStopBegin, by simp [progressActs], ?_⟩
       simp only [step, hr, hm]
       cases hc : s.cfg with
@@ -359,7 +360,7 @@ theorem c09_stop_never_stuck_nonblocking {s : St} (h : Reach lts (init []) s) (h
     | failToStop c =>
       have hm := hmuNone (by simp [hr]) (by simp [hr]) hrl'
       have hcfg : s.cfg ≠ none := fun hc => by
-        rcases h4.cfg hc with h1 | h1 | ⟨r, h1⟩ <;> rw [hr] at h1 <;> cases h1
+        rcases h4.cfg hc with h1 | h1 | h1 | ⟨r, h1⟩ <;> rw [hr] at h1 <;> cases h1
       refine ⟨.runStopBegin, by simp [progressActs], ?_⟩
       simp only [step, hr, hm]
       cases hc : s.cfg with
@@ -389,7 +390,7 @@ open GoSup.CompSeq (CbRes Out names)
 configuration callback (`runBoot`, `rlCallback`: how long that takes, and how large a configuration it returns, is the
 environment's business) -/
 def isLib : Act → Bool
-  | .runEnter | .runToRunning | .runSelCtx | .runSelStop | .runSelErr | .runToStopping | .runStopBegin | .runStopEnd | .runFinish
+  | .runEnter | .runBootFail | .runToRunning | .runSelCtx | .runSelStop | .runSelErr | .runToStopping | .runStopBegin | .runStopEnd | .runFinish
   | .rlEnter | .rlAfterCb | .rlDecide | .rlStopBegin | .rlStopEnd | .rlSetConfig | .rlBoot | .rlChildReload | .rlFinish
   | .childStopRet _ => true
   | _ => false
@@ -398,7 +399,7 @@ def cfgLen (s : St) : Nat := (s.cfg.getD []).length
 
 def runPart (s : St) : Nat :=
   match s.run with
-  | .idle => 11 + cfgLen s | .entered => 10 + cfgLen s | .booted => 9 + cfgLen s | .select => 8 + cfgLen s
+  | .idle => 11 + cfgLen s | .entered => 10 + cfgLen s | .bootFailed => 1 | .booted => 9 + cfgLen s | .select => 8 + cfgLen s
   | .afterSelect => 7 + cfgLen s | .toStop => 6 + cfgLen s | .failToStop _ => 6 + cfgLen s
   | .stopping p => 3 + p.length | .failStopping p _ => 3 + p.length | .stopped => 2 | .returned _ => 0
 
@@ -528,7 +529,7 @@ theorem c09_stop_returns_nonblocking {s : St} (h : Reach lts (init []) s) (hstop
     refine ⟨a, ?_, hen⟩
     -- the enabled action is one of the library's: `runBoot` is not enabled once `Run` has booted
     simp only [progressActs, List.mem_append, List.mem_cons, List.not_mem_nil, or_false] at ha
-    rcases ha with (((h | h | h | h | h | h | h | h | h) | h) | h)
+    rcases ha with (((h | h | h | h | h | h | h | h | h | h) | h) | h)
     · subst h; rfl
     · subst h
       have hbt := hp.2.2
